@@ -71,6 +71,87 @@ Inductive oreach (R : Z) : ostate -> Prop :=
 | oreach_init : oreach R oinit
 | oreach_step s l s' : oreach R s -> ostep_exec R s l = Some s' -> oreach R s'.
 
+(* ================================================================== adt.Once (adt/atomics.go)
+   type Once[T] struct { ctor Atomic[func() T]; once sync.Once; called, defined atomic.Bool; comp T }
+   Do(ctor):   o.once.Do(func() { o.ctor.Set(ctor); o.defined.Store(true); o.populate() })
+   Resolve():  o.once.Do(o.populate); return o.comp
+   populate(): o.called.Store(true); o.comp = ft.SafeDo(o.ctor.Get()); o.ctor.Set(nil)
+   Called():   o.called.Load()
+   The `called` flag is set BEFORE the constructor runs ("has been called or is currently running").
+   [fast = true] is a Do with an `if o.Called() { return }` fast path in front of the sync.Once.  *)
+Inductive apc :=
+| AIdle
+| ACalled (res : bool)        (* inside Do (res = false) or Resolve (res = true), before once.Do *)
+| AInBody (res : bool)        (* inside once.Do's function, before populate's called.Store(true) *)
+| AMarked (res : bool)        (* called is set, the constructor is running *)
+| AWrote (res : bool)         (* o.comp assigned *)
+| AAfter (res : bool)         (* once.Do has returned *)
+| ADoneDo                     (* Do returned *)
+| ADoneRes (v : Z).           (* Resolve returned v *)
+
+Record astate := mkA {
+  a_done : bool;
+  a_running : bool;
+  a_called : bool;
+  a_comp : Z;
+  a_pc : Z -> apc;
+  a_execs : nat
+}.
+
+Inductive alabel :=
+| ACallDo (t : Z) | ACallRes (t : Z) | AEnter (t : Z) | AMark (t : Z) | ABodyEnd (t : Z) | ADoEnd (t : Z)
+| APass (t : Z) | AFast (t : Z) | ARet (t : Z).
+
+Definition ainit : astate := mkA false false false 0 (fun _ => AIdle) 0.
+
+Definition astep_exec (fast : bool) (R : Z) (s : astate) (l : alabel) : option astate :=
+  match l with
+  | ACallDo t => match a_pc s t with AIdle => Some (mkA (a_done s) (a_running s) (a_called s) (a_comp s) (upd (a_pc s) t (ACalled false)) (a_execs s)) | _ => None end
+  | ACallRes t => match a_pc s t with AIdle => Some (mkA (a_done s) (a_running s) (a_called s) (a_comp s) (upd (a_pc s) t (ACalled true)) (a_execs s)) | _ => None end
+  | AEnter t =>
+      match a_pc s t with
+      | ACalled r => if negb (a_done s) && negb (a_running s)
+                     then Some (mkA false true (a_called s) (a_comp s) (upd (a_pc s) t (AInBody r)) (S (a_execs s))) else None
+      | _ => None
+      end
+  | AMark t =>      (* populate: o.called.Store(true) *)
+      match a_pc s t with
+      | AInBody r => Some (mkA (a_done s) (a_running s) true (a_comp s) (upd (a_pc s) t (AMarked r)) (a_execs s))
+      | _ => None
+      end
+  | ABodyEnd t =>   (* o.comp = ctor() *)
+      match a_pc s t with
+      | AMarked r => Some (mkA (a_done s) (a_running s) (a_called s) R (upd (a_pc s) t (AWrote r)) (a_execs s))
+      | _ => None
+      end
+  | ADoEnd t =>
+      match a_pc s t with
+      | AWrote r => Some (mkA true false (a_called s) (a_comp s) (upd (a_pc s) t (AAfter r)) (a_execs s))
+      | _ => None
+      end
+  | APass t =>      (* once.Do of any other caller: blocks until done *)
+      match a_pc s t with
+      | ACalled r => if a_done s then Some (mkA (a_done s) (a_running s) (a_called s) (a_comp s) (upd (a_pc s) t (AAfter r)) (a_execs s)) else None
+      | _ => None
+      end
+  | AFast t =>      (* only in the [fast] variant: Do returns at once when Called() is true *)
+      match a_pc s t with
+      | ACalled false => if fast && a_called s
+                         then Some (mkA (a_done s) (a_running s) (a_called s) (a_comp s) (upd (a_pc s) t ADoneDo) (a_execs s)) else None
+      | _ => None
+      end
+  | ARet t =>
+      match a_pc s t with
+      | AAfter false => Some (mkA (a_done s) (a_running s) (a_called s) (a_comp s) (upd (a_pc s) t ADoneDo) (a_execs s))
+      | AAfter true => Some (mkA (a_done s) (a_running s) (a_called s) (a_comp s) (upd (a_pc s) t (ADoneRes (a_comp s))) (a_execs s))
+      | _ => None
+      end
+  end.
+
+Inductive areach (fast : bool) (R : Z) : astate -> Prop :=
+| areach_init : areach fast R ainit
+| areach_step s l s' : areach fast R s -> astep_exec fast R s l = Some s' -> areach fast R s'.
+
 (* ================================================================== limitExec (process.go)
    counter := &atomic.Int64{}; mtx := &sync.Mutex{}; var output T
    func(op) T {
@@ -179,10 +260,13 @@ Inductive lreach (n : Z) (val : nat -> Z) : lstate -> Prop :=
 
 Definition lquiescent (s : lstate) : Prop := l_active s = [].
 
-(* ================================================================== Operation.Limit (CAS loop; runs are not serialised)
+(* ================================================================== Operation.Limit (CAS retry loop; runs are not serialised)
    for { current := counter.Load(); if current >= n { return false }
-         if counter.CompareAndSwap(current, current+1) { return true } }      *)
-Inductive cpc := CIdle | CEntry | CRunning | CDone (ran : bool).
+         if counter.CompareAndSwap(current, current+1) { return true } }
+   Load and CompareAndSwap are separate atomic steps: other callers can move the counter in between,
+   in which case the CAS fails and the loop re-reads.  [retry = false] is the shape without the loop
+   (`current < n && CAS(current, current+1)`): a caller that loses the CAS is turned away.            *)
+Inductive cpc := CIdle | CEntry | CLoaded (cur : Z) | CRunning | CDone (ran : bool).
 
 Record cstate := mkC {
   c_counter : Z;
@@ -195,28 +279,33 @@ Record cstate := mkC {
   c_rets_skipped : nat
 }.
 
-Inductive clabel := CCall (t : Z) | CCasOk (t : Z) | CCasNo (t : Z) | CEnd (t : Z).
+Inductive clabel := CCall (t : Z) | CLoad (t : Z) | CCas (t : Z) | CEnd (t : Z).
 
 Definition cinit : cstate := mkC 0 (fun _ => CIdle) 0 [] [] 0 0 0.
 
-Definition cstep_exec (n : Z) (s : cstate) (l : clabel) : option cstate :=
+Definition cstep_exec (retry : bool) (n : Z) (s : cstate) (l : clabel) : option cstate :=
   match l with
   | CCall t =>
       match c_pc s t with
       | CIdle => Some (mkC (c_counter s) (upd (c_pc s) t CEntry) (c_runs s) (c_running s) (t :: c_active s) (S (c_calls s)) (c_rets_ran s) (c_rets_skipped s))
       | _ => None
       end
-  | CCasOk t =>     (* load current < n and CAS(current, current+1) succeeds, as one step; a failed CAS retries and changes nothing *)
+  | CLoad t =>      (* current := counter.Load(); if current >= n { return false } *)
       match c_pc s t with
-      | CEntry => if c_counter s <? n
-                  then Some (mkC (c_counter s + 1) (upd (c_pc s) t CRunning) (S (c_runs s)) (t :: c_running s) (c_active s) (c_calls s) (c_rets_ran s) (c_rets_skipped s))
-                  else None
+      | CEntry =>
+          if c_counter s <? n
+          then Some (mkC (c_counter s) (upd (c_pc s) t (CLoaded (c_counter s))) (c_runs s) (c_running s) (c_active s) (c_calls s) (c_rets_ran s) (c_rets_skipped s))
+          else Some (mkC (c_counter s) (upd (c_pc s) t (CDone false)) (c_runs s) (c_running s) (remove1 t (c_active s)) (c_calls s) (c_rets_ran s) (S (c_rets_skipped s)))
       | _ => None
       end
-  | CCasNo t =>
+  | CCas t =>       (* counter.CompareAndSwap(current, current+1) *)
       match c_pc s t with
-      | CEntry => if c_counter s <? n then None
-                  else Some (mkC (c_counter s) (upd (c_pc s) t (CDone false)) (c_runs s) (c_running s) (remove1 t (c_active s)) (c_calls s) (c_rets_ran s) (S (c_rets_skipped s)))
+      | CLoaded cur =>
+          if c_counter s =? cur
+          then Some (mkC (cur + 1) (upd (c_pc s) t CRunning) (S (c_runs s)) (t :: c_running s) (c_active s) (c_calls s) (c_rets_ran s) (c_rets_skipped s))
+          else if retry
+          then Some (mkC (c_counter s) (upd (c_pc s) t CEntry) (c_runs s) (c_running s) (c_active s) (c_calls s) (c_rets_ran s) (c_rets_skipped s))
+          else Some (mkC (c_counter s) (upd (c_pc s) t (CDone false)) (c_runs s) (c_running s) (remove1 t (c_active s)) (c_calls s) (c_rets_ran s) (S (c_rets_skipped s)))
       | _ => None
       end
   | CEnd t =>
@@ -226,9 +315,9 @@ Definition cstep_exec (n : Z) (s : cstate) (l : clabel) : option cstate :=
       end
   end.
 
-Inductive creach (n : Z) : cstate -> Prop :=
-| creach_init : creach n cinit
-| creach_step s l s' : creach n s -> cstep_exec n s l = Some s' -> creach n s'.
+Inductive creach (retry : bool) (n : Z) : cstate -> Prop :=
+| creach_init : creach retry n cinit
+| creach_step s l s' : creach retry n s -> cstep_exec retry n s l = Some s' -> creach retry n s'.
 
 (* ================================================================== Lock / WithLock
    mtx.Lock(); defer mtx.Unlock(); return f(...)                            *)
@@ -554,13 +643,17 @@ Fixpoint has_start (t : Z) (evs : list cev) : bool :=
 Definition climit_tr (n : Z) (all : list cev) (s : cstate) (e : cev) : option cstate :=
   match e with
   | EvCall t =>
-      if has_start t all then steps (cstep_exec n) s [CCall t; CCasOk t] else cstep_exec n s (CCall t)
+      if has_start t all then steps (cstep_exec true n) s [CCall t; CLoad t; CCas t] else cstep_exec true n s (CCall t)
   | EvStart t => match c_pc s t with CRunning => Some s | _ => None end
   | EvEnd t _ => Some s
   | EvRet t _ =>
       match c_pc s t with
-      | CEntry => cstep_exec n s (CCasNo t)
-      | _ => cstep_exec n s (CEnd t)
+      | CEntry =>     (* turned away: its Load must have seen the limit reached *)
+          match cstep_exec true n s (CLoad t) with
+          | Some s' => match c_pc s' t with CDone false => Some s' | _ => None end
+          | None => None
+          end
+      | _ => cstep_exec true n s (CEnd t)
       end
   end.
 
@@ -634,5 +727,32 @@ Definition send_tr (R : Z) (s : vstate) (e : cev) : option vstate :=
 Definition acc_send (evs : list cev) : bool :=
   match replay (send_tr 0) vinit evs with
   | Some s => match v_bg s with VClosing => true | _ => false end
+  | None => false
+  end.
+
+(* adt.Once: the callers use Do (res = false; EvRet carries no value) or Resolve (res = true) *)
+Definition adt_tr (R : Z) (res : bool) (s : astate) (e : cev) : option astate :=
+  match e with
+  | EvCall t => astep_exec false R s (if res then ACallRes t else ACallDo t)
+  | EvStart t => steps (astep_exec false R) s [AEnter t; AMark t]
+  | EvEnd t _ => steps (astep_exec false R) s [ABodyEnd t; ADoEnd t]
+  | EvRet t v =>
+      match (match a_pc s t with
+             | ACalled _ => steps (astep_exec false R) s [APass t; ARet t]
+             | _ => astep_exec false R s (ARet t)
+             end) with
+      | Some s' => match a_pc s' t with
+                   | ADoneRes v' => if v' =? v then Some s' else None
+                   | ADoneDo => Some s'
+                   | _ => None
+                   end
+      | None => None
+      end
+  end.
+
+Definition acc_adt (res : bool) (evs : list cev) : bool :=
+  let R := end_value evs in
+  match replay (adt_tr R res) ainit evs with
+  | Some s => (a_execs s <=? 1)%nat
   | None => false
   end.
